@@ -63,7 +63,16 @@ def signal_specs(draw, kinds=("1d", "pixels3", "2d", "3d", "rgb")):
             "dtype": draw(st.sampled_from(["float64", "float64", "float32"]))}
 
 
+INT_DTYPES = ("uint8", "uint16", "int16", "int32", "int64")
+
+
 def make_signal(spec, salt=0):
+    if spec["dtype"] in INT_DTYPES:
+        # integer-typed signals (raw photographs, label-like data): small values around the range of
+        # the model parameters so that bounds fall between, on and outside the signal values
+        lo = 0 if spec["dtype"].startswith("u") else -6
+        rng = np.random.default_rng(spec["pseed"] + salt)
+        return rng.integers(lo, 9, size=spec["shape"]).astype(spec["dtype"])
     return gens.payload_array(spec["shape"], spec["dtype"], spec["pseed"] + salt, dyadic=True)
 
 
@@ -102,12 +111,20 @@ def gen_clip_cases(draw):
     lo = draw(st.one_of(st.none(), dy(-3, 3)))
     lo_eff = 0.0 if lo is None else lo
     hi = draw(st.one_of(st.none(), dy(lo_eff, 4)))
+    sig = draw(signal_specs())
+    # the signal is a float array or an integer-typed one (images as read from file are uint8 / uint16,
+    # differences of them signed); the bounds are real numbers in either case
+    idt = draw(st.sampled_from([None] * 6 + ["uint8", "uint8", "uint16", "int16", "int32", "int64"]))
+    image = draw(st.booleans())
+    if idt is not None:
+        sig["dtype"] = idt
+        image = image or draw(st.booleans())
     return {
-        "sig": draw(signal_specs()), "lo": lo, "hi": hi,
+        "sig": sig, "lo": lo, "hi": hi,
         "key": draw(st.sampled_from(["", "model "])),
         "via": draw(st.sampled_from(["ctor", "ctor", "update", "dofs-none", "dofs-all", "dofs-both",
                                      "dofs-min", "dofs-max"])),
-        "image": draw(st.booleans()),
+        "image": image,
     }
 
 
@@ -141,7 +158,9 @@ def _build_clip(case):
 def check_clip(case):
     x = make_signal(case["sig"])
     m, lo, hi = _build_clip(case)
-    t = {"via": case["via"], "hi": "none" if hi is None else "set", "image": case["image"]}
+    integer = case["sig"]["dtype"] in INT_DTYPES
+    t = {"via": case["via"], "hi": "none" if hi is None else "set", "image": case["image"],
+         "signal": case["sig"]["dtype"]}
     x0 = x.copy()
     if case["image"] and x.ndim >= 2 and case["sig"]["kind"] in ("2d", "rgb", "3d"):
         scalar = case["sig"]["kind"] != "rgb"
@@ -184,8 +203,17 @@ def check_clip(case):
     if not np.array_equal(again, got):
         raise Violation("clip-idempotent", "clip(clip(x)) != clip(x)", t)
     active = bool(np.any(x0 < lo) or (hi is not None and np.any(x0 > hi)))
-    return Outcome(active, [case["sig"], lo, hi, case["via"], form],
-                   (case["sig"]["kind"], form, f"via-{case['via']}", "max-none" if hi is None else "max-set"))
+    labels = (case["sig"]["kind"], form, f"via-{case['via']}", "max-none" if hi is None else "max-set",
+              "signal-" + case["sig"]["dtype"])
+    if integer:
+        # the class in which the bound itself is not representable in the signal's type
+        lo_frac = bool(lo != np.floor(lo) and np.any(x0 < lo))
+        hi_frac = bool(hi is not None and hi != np.floor(hi) and np.any(x0 > hi))
+        labels += (("integer-" + form + "-fractional-bound-active") if lo_frac or hi_frac
+                   else ("integer-" + form + "-bound-integral-or-inactive"),)
+        if lo_frac:
+            labels += ("integer-" + form + "-fractional-lower-bound-active",)
+    return Outcome(active, [case["sig"], lo, hi, case["via"], form], labels)
 
 
 # ---------------------------------------------------------------------------------------
@@ -1282,7 +1310,9 @@ _RULE = ("Hypothesis draws the signal form (1-D, Nx3 pixel list, 2-D, 3-D, HxWx3
          "with 1..5 distinct uint8 labels (every label present), 1-4 parts of a combined model, "
          "Gaussian (gamma 0.5..9.73) / linear (a 0..1) kernels with 1..4 supports on the 1/100 grid "
          "(pairwise distance >= 0.3, cond(X) <= 1e3, else re-drawn deterministically), polynomial "
-         "degrees 0..4 enumerated; further classes: Images in 2-D, RGB and 3-D for ClipModel, label maps of "
+         "degrees 0..4 enumerated; further classes: Images in 2-D, RGB and 3-D for ClipModel, integer-typed "
+         "clip signals (uint8/uint16/int16/int32/int64 arrays and Images, values -6..8, real-valued bounds "
+         "between the representable values), label maps of "
          "type uint8/uint16/int32/int64 (id 300), multichannel and float32 signals for the label-wise linear "
          "model, data-less KernelInterpolation prototypes inside CombinedModel([HeterogeneousModel]) "
          "calibrated label by label through item access (not necessarily all labels), a support handed "
